@@ -339,6 +339,8 @@ class Box:
         e.update({"LD_PRELOAD": os.path.join(self.tools, "nqshim.so"), "NQV_PASSWD": self.passwd,
                   "NQV_REC": self.rec, "NQV_TRACE": "i", "NQV_LOG": self.log, "NQV_CLOCK": self.clock,
                   "NQV_QL_OUT": QL_OUT.decode()})
+        if getattr(self, "idfail", None):
+            e["NQV_IDFAIL"] = self.idfail
         return e
 
     def newu(self):
@@ -750,6 +752,24 @@ def run_case(res, box, i, tier):
             chosen["fallback"] = lambda l: None
         else:
             chosen["fallback"] = lambda l: um.getpw_lookup(model_accounts, home_owner, l, ALIAS)
+    if i % 5 == 0 and mode not in ("nocdb",):
+        # "starts only after supplementary groups, gid and uid have ALL been switched": one of the three switches fails
+        # (whatever the reason the kernel gives) - then no delivery agent may be started at all
+        box.idfail = rng.choice(["setgroups", "setgid", "setuid"]) + ":" + rng.choice(["EPERM", "EPERM", "EINVAL", "EAGAIN", "ENOMEM"])
+        try:
+            reports_f, records_f, ev_f, problem_f = box.lspawn(locals_[:4], domain)
+        finally:
+            which_fail = box.idfail
+            box.idfail = None
+        box.sanitizer_reports()
+        if problem_f:
+            res.inconclusive.append("case %d (identity switch failing): %s" % (i, problem_f))
+        else:
+            res.counters.inc("runs_with_a_failing_identity_switch")
+            if records_f:
+                res.violate("C11/started-despite-failed-identity-switch/" + which_fail.split(":")[0],
+                            "%d delivery agents were started although %s failed" % (len(records_f), which_fail.replace(":", " with ")),
+                            dict(ctx, failing=which_fail, locals=[core.hx(x) for x in locals_[:4]]))
     reports, records, ev, problem = box.lspawn(locals_, domain)
     if problem:
         res.inconclusive.append("case %d: %s" % (i, problem))
